@@ -6,7 +6,7 @@
 (* projected to the grid.  The expected rows are computed by TLC from the  *)
 (* space group, the asymmetric unit and the integer Gram matrix.           *)
 (***************************************************************************)
-EXTENDS Neighbours, TLC, Json, IOUtils
+EXTENDS Neighbours, Reexpress, TLC, Json, IOUtils
 
 CONSTANT NBlocks
 ASSUME TLCSet(1, JsonDeserialize(IOEnv.TRACE_FILE).traces)     \* parsed once, not once per worker
@@ -56,6 +56,7 @@ Verdict(t) ==
   \* 32-bit safety: |coordinate differences| <= (K+3) N, so Dist2N <= 9 maxG ((K+3)N)^2 must stay below 2^31
   IF ~(\A i \in Idx : \A j \in Idx : AbsI(t.gram[i][j]) <= 2147483647 \div (9 * ((t.K + 3) * t.n) * ((t.K + 3) * t.n))) THEN "OOD gram-magnitude" ELSE
   IF ~(\A i \in DOMAIN t.queries : \A c \in SeqSet(t.queries[i].centre) : \A x \in Idx : AbsI(c[x]) <= 2 * t.n) THEN "OOD centre-range" ELSE
+  IF ~SwitchedFromOK(t) THEN "OOD switch-proposal" ELSE
   IF ~MetricCompatible(t.ops, t.gram) THEN "OOD metric" ELSE
   IF ~OrbitsDisjointT(tab) THEN "OOD overlapping-orbits" ELSE
   IF bad = {} THEN "ACCEPT" ELSE vs[CHOOSE i \in bad : \A j \in bad : i <= j]
